@@ -4,7 +4,7 @@
    Common.bad_indices. *)
 From Coq Require Import ZArith List Bool.
 Import ListNotations.
-Require Import SV.Common SV.C11.Base SV.C11.Utf8 SV.C11.Gen_events SV.C11.Envelope SV.C11.Tick SV.C11.Notify SV.C11.Routing SV.C11.Capture SV.C11.Listeners.
+Require Import SV.Common SV.C11.Base SV.C11.Utf8 SV.C11.Gen_events SV.C11.Envelope SV.C11.Tick SV.C11.Notify SV.C11.Routing SV.C11.Capture SV.C11.Listeners SV.C11.Register.
 Open Scope Z_scope.
 
 Definition otext_eqb := option_eqb zlist_eqb.
@@ -137,3 +137,16 @@ Definition check_listeners (c : Z * list lop * list (list Z) * list Z) : bool :=
   let k := Z.to_nat (Z.min n 8) in
   let s := lrun k l in
   list_eqb zlist_eqb (map (sent_to s) (seq 0 k)) sent && zlist_eqb (l_buf s) lft && once_after_ok (l_log s).
+
+(* registrations at run time interleaved with look-ups *)
+Definition check_register (c : list xop * list (option bytes)) : bool :=
+  let '(l, r) := c in list_eqb otext_eqb (xrun initial_table l) r.
+
+(* several capture sections in one run: the data of each PROCESS_COMMUNICATION event *)
+Definition check_blocks (c : Z * list (list bytes) * list bytes) : bool :=
+  let '(m, blocks, r) := c in list_eqb zlist_eqb (blocks_run m [] blocks) r.
+
+(* finish() with output held back: all notifications it raises, rendered after it returned *)
+Definition check_flush (c : proc * list (evclass * bytes) * (Z * bool * bool * Z) * list (evclass * option text)) : bool :=
+  let '(p, held, (es, tq, ee, now), r) := c in
+  rendered_eqb (rendered (finish_with_output p held es tq ee now)) r.
